@@ -364,7 +364,8 @@ class Interp:
 
     @staticmethod
     def loop_generator_shape(node):
-        """(setup statements, step statements, yielded expression) of a generator `setup; while True: step; yield value`, else None"""
+        """(setup, before, yielded expression, after) of a generator `setup; while True: before; yield value; after`, else None: the k-th
+        next() runs (setup; before) for k = 1 and (after; before) afterwards, and returns the value"""
         body = [s_ for s_ in node.body if not (isinstance(s_, ast.Expr) and isinstance(s_.value, ast.Constant))]
         if not body or not isinstance(body[-1], ast.While):
             return None
@@ -372,16 +373,25 @@ class Interp:
         if not (isinstance(loop.test, ast.Constant) and loop.test.value is True and not loop.orelse and loop.body):
             return None
         yields = [n for n in ast.walk(node) if isinstance(n, (ast.Yield, ast.YieldFrom))]
-        last = loop.body[-1]
-        if len(yields) != 1 or not (isinstance(last, ast.Expr) and last.value is yields[0] and isinstance(yields[0], ast.Yield)):
-            raise Unsupported("generator with an endless loop whose single yield is not the last statement of the loop")
+        at = [k for k, s_ in enumerate(loop.body) if isinstance(s_, ast.Expr) and yields and s_.value is yields[0]]
+        if len(yields) != 1 or not at or not isinstance(yields[0], ast.Yield):
+            raise Unsupported("generator with an endless loop whose single yield is not a statement of the loop body")
         if any(isinstance(n, (ast.Break, ast.Return)) for n in ast.walk(loop)):
             raise Unsupported("generator with an endless loop that is left by break/return")
-        return body[:-1], loop.body[:-1], yields[0].value
+        return body[:-1], loop.body[:at[0]], yields[0].value, loop.body[at[0] + 1:]
 
     def generator_next(self, g, node):
-        """one next() of a generator of the shape above: the setup on the first call, then one step, then the yielded value"""
-        setup, step, value = g.attrs["shape"]
+        """one next() of a generator: of the shape above, or a bounded view of one (itertools.islice)"""
+        if g.attrs.get("islice") is not None:
+            src, limit = g.attrs["islice"]
+            taken = g.attrs["taken"]
+            if isinstance(limit, int) and isinstance(taken, int):
+                if taken >= limit:
+                    raise PathRaises("StopIteration", node)
+                g.attrs["taken"] = taken + 1
+                return self.generator_next(src, node)
+            raise Unsupported("next() on an islice of unknown length")
+        setup, before, value, after = g.attrs["shape"]
         env, qual = g.attrs["env"], g.attrs["qual"]
         if self.depth >= self.max_depth:
             raise Unsupported("inline depth exceeded at " + qual)
@@ -393,13 +403,80 @@ class Interp:
             if not g.attrs["started"]:
                 g.attrs["started"] = True
                 self.exec_block(setup, env)
-            self.exec_block(step, env)
+            else:
+                self.exec_block(after, env)
+            self.exec_block(before, env)
             out[0] = self.eval(value, env) if value is not None else None
             return out[0]
         finally:
             self.ev("exit", callee=qual, value=out[0])
             self.stack.pop()
             self.depth -= 1
+
+    def for_over_generator(self, st, env, g):
+        """`for x in g` / `for x in islice(g, n)` for a generator g of the endless-loop shape: the first next() differs from the later ones
+        (setup, nothing to finish from the step before), so the first iteration is run on its own and the remaining ones as one generic
+        iteration; the loop ends by break, return or - for a bounded view - after n elements"""
+        src, limit = g, None
+        if g.attrs.get("islice") is not None:
+            (src, limit), taken = g.attrs["islice"], g.attrs["taken"]
+            if taken != 0 or src.attrs.get("islice") is not None:
+                raise Unsupported("loop over a partly consumed or nested islice")
+        has_break = any(isinstance(n, ast.Break) for s_ in st.body for n in ast.walk(s_))
+        if limit is None and not has_break and not any(isinstance(n, ast.Return) for s_ in st.body for n in ast.walk(s_)):
+            raise Unsupported("loop over an endless generator without break or return")
+        if limit is not None:
+            enough = limit >= 1 if isinstance(limit, int) else self.truth(mk("ge", limit, 1), st.iter, env)
+            if not enough:
+                self.exec_block(st.orelse, env)
+                return
+        first = not src.attrs["started"]
+        if first:
+            self.loop_kinds.append("concrete")
+            try:
+                self.assign(st.target, self.generator_next(src, st), env, st)
+                try:
+                    self.exec_block(st.body, env)
+                except _Continue:
+                    pass
+                except _Break:
+                    return
+            finally:
+                self.loop_kinds.pop()
+        if isinstance(limit, int) and limit <= 8:   # a long bounded loop is summarised like one of unknown length
+            rest = range(1 if first else 0, limit)
+            self.loop_kinds.append("concrete")
+            try:
+                for _ in rest:
+                    self.assign(st.target, self.generator_next(src, st), env, st)
+                    try:
+                        self.exec_block(st.body, env)
+                    except _Continue:
+                        continue
+                    except _Break:
+                        return
+            finally:
+                self.loop_kinds.pop()
+            self.exec_block(st.orelse, env)
+            return
+        idx = self.fresh("i", ("int", "loopvar"))
+        desc = ("range", 1 if first else 0, limit) if limit is not None else ("while", "True")
+        self.symbolic_loop(st, env, idx, desc, lambda: (self.assign(st.target, self.generator_next(src, st), env, st), self.exec_block(st.body, env)))
+        self.symbolic_orelse(st, env, has_break)
+
+    def symbolic_orelse(self, st, env, has_break):
+        """the else clause of a loop whose number of iterations is unknown: it runs when the loop is exhausted without break. Supported: no
+        else clause; an else clause on a loop without break (always runs); a raise-only else clause on a loop with break (recorded as a
+        guard: the path continues as the one that left by break)"""
+        if not st.orelse:
+            return
+        if not has_break:
+            self.exec_block(st.orelse, env)
+            return
+        if all(isinstance(s_, ast.Raise) for s_ in st.orelse):
+            self.ev("guard", cond=Sym("loop exhausted without break", ("bool",)), node=st, raises=ast.unparse(st.orelse[0].exc) if st.orelse[0].exc else "")
+            return
+        raise Unsupported("else clause (other than a raise) on a loop of unknown length that can also be left by break")
 
     @staticmethod
     def bind_names(fi, args, kwargs, skip_self):
@@ -631,6 +708,8 @@ class Interp:
         if name == "itertools.islice" and isinstance(self.strip_iter(args[0]), (list, tuple)) and all(x_ is None or isinstance(x_, int) for x_ in args[1:]):
             import itertools as _it
             return list(_it.islice(self.strip_iter(args[0]), *args[1:]))
+        if name == "itertools.islice" and isinstance(args[0], Obj) and args[0].cls == "generator" and len(args) == 2 and not kwargs:
+            return Obj("generator", "islice", {"islice": (args[0], args[1]), "taken": 0, "env": {}}, {"generator"})
         if name in ("copy.copy",):
             o = args[0]
             if isinstance(o, Obj):
@@ -753,7 +832,10 @@ class Interp:
                 cv = self.eval(st.test, env)
                 if isinstance(cv, Term):
                     if self.loop_kinds[-1] != "symbolic":
-                        raise Unsupported("break on a symbolic condition inside a loop over a concrete sequence")
+                        # an iteration that is run on its own (concrete sequence, first element of a generator): both outcomes are followed
+                        if self.truth(cv, st.test, env):
+                            raise _Break()
+                        return
                     self.ev("while_test", cond=cv.args[0] if isinstance(cv, Op) and cv.op == "not" else Op("not", (cv,)), node=st)
                     return
                 if cv:
@@ -907,6 +989,8 @@ class Interp:
             if not broke and st.orelse:
                 self.exec_block(st.orelse, env)
             return
+        if isinstance(it, Obj) and it.cls == "generator":
+            return self.for_over_generator(st, env, it)
         # symbolic iteration: two passes over the body for a generic element / index
         if isinstance(it, Op) and it.op == "range":
             idx = self.fresh("i", ("int", "loopvar"))
@@ -922,6 +1006,7 @@ class Interp:
             elem = self.fresh("elem")
             desc = ("iter", it)
         self.symbolic_loop(st, env, elem, desc, lambda: (self.assign(st.target, elem, env, st), self.exec_block(st.body, env)))
+        self.symbolic_orelse(st, env, any(isinstance(n, ast.Break) for s_ in st.body for n in ast.walk(s_)))
 
     # -- loop machinery ------------------------------------------------------
     def _state_cells(self, env):
